@@ -80,6 +80,7 @@ def Val.cmp (op : Cmp) (a b : Val) : M Bool :=
 def pyOr (a b : M Bool) : M Bool := do if (← a) then pure true else b
 def pyAnd (a b : M Bool) : M Bool := do if (← a) then b else pure false
 def pyNot (a : M Bool) : M Bool := do pure (!(← a))
+def pyIf {α : Type} (c : M Bool) (a b : M α) : M α := do if (← c) then a else b
 def raiseIf (c : M Bool) (exc : String) : M Unit := do if (← c) then throw exc else pure ()
 
 /-- `d.get(key, default)` on a dictionary given as a lookup function -/
